@@ -44,6 +44,8 @@ type fullCfg struct {
 	Shape      string `json:"error_shape"` // plain | wrapped (%w) | joined with a plain error
 	// Block: block_on_overflow; producers then wait for space instead of being refused, also while Shutdown drains
 	Block bool `json:"block_on_overflow,omitempty"`
+	// ZeroBackoff: retry_on_failure::initial_interval 0 - a failed attempt is retried at once (unless shutting down)
+	ZeroBackoff bool `json:"zero_backoff,omitempty"`
 }
 
 type fullProdKey struct{}
@@ -151,6 +153,7 @@ func fullConfig(tp *simkit.Tape, prop string) fullCfg {
 		c.NoQueue = true
 		c.Wait = false
 	}
+	c.ZeroBackoff = c.Retry && tp.Chance(1, 8)
 	if !c.NoQueue && prop != "C05" && tp.Chance(1, 4) {
 		c.Block = true
 		switch c.Sizer {
@@ -206,6 +209,9 @@ func (s *fullSim) build(inc *Incarnation) (simExporter, error) {
 	rc.Enabled = cfg.Retry
 	rc.InitialInterval = fullBackoff
 	rc.MaxInterval = fullBackoff
+	if cfg.ZeroBackoff {
+		rc.InitialInterval, rc.MaxInterval = 0, 0
+	}
 	rc.Multiplier = 1
 	rc.RandomizationFactor = 0
 	rc.MaxElapsedTime = 20 * time.Second
